@@ -112,6 +112,7 @@ pub mod step {
     pub use crate::solver::core::{ScalingStrategy, StepDirection};
     pub use crate::solver::implementations::default::verif_hooks_kktsystem as kktsystem;
     pub use crate::solver::implementations::default::verif_hooks_residuals as residuals;
+    pub use crate::solver::core::verif_hooks_solver as solver;
 }
 
 /// chordal analysis / decomposition wrappers on plain vectors (needs `sdp`)
